@@ -5,6 +5,7 @@ import random
 
 from .common import *
 from .core import Ctx, Infra, casehash, log
+from .c08h import history_clause, is_history_replay
 
 
 @pipeline
@@ -14,6 +15,8 @@ def c08(ctx: Ctx):
         "harness realiser harness/c08.go (documents built per case and loaded through the real loader; each response-map entry accepts only bodies carrying its own marker property, so the chosen entry is observable through the verdict)",
         "wildcard content is exercised with JSON bodies only (a declared application/* with a body the library has no decoder for is an implementation limit, not part of the statement)",
     ]
+    if is_history_replay(ctx):
+        return history_clause(ctx)
     cases = os.path.join(ctx.scratch, "cases.ndjson")
     if ctx.replay:
         write_ndjson(cases, [ctx.replay["violation"]["c"]])
@@ -36,3 +39,5 @@ def c08(ctx: Ctx):
                 "strict-status x which entry's marker the body carries) + (5 header declarations x 4 header texts x 6 content declarations x 4 "
                 "content types x 8 bodies x ExcludeResponseBody x ExcludeWriteOnlyValidations x MultiError); every case is distinct and judged")
     ctx.validate("Trace_C08", "Trace_C08.cfg", logp, chunk_lines=1500)
+    if not ctx.replay:
+        history_clause(ctx)
